@@ -120,4 +120,27 @@ func init() {
 		Intercepted: fleetIntercepted,
 		Outside:     []string{"more than 2 replicas (+1 cascade)", "optimisation controller effects beyond the registry write", "maintenance / switch pending (exempt by the statement)", "SemiSync=false configuration"},
 	})
+	reg(&property{
+		ID: "C15",
+		Obligations: []obligation{
+			{Pkg: "dcs", Entry: "H_C15_op_step", Witnesses: []string{"C15.create.exists", "C15.create.ok", "C15.create.noparent", "C15.set.overwrite", "C15.set.create-with-parents",
+				"C15.set.plain-to-ephemeral-refused", "C15.set.under-ephemeral", "C15.get.notfound", "C15.get.malformed", "C15.get.ok", "C15.delete.absent", "C15.delete.nonempty", "C15.delete.ok",
+				"C15.children.notfound", "C15.children.ok"}},
+			{Pkg: "dcs", Entry: "H_C15_fullpath_bytes", Witnesses: []string{"C15.fullpath"},
+				Quick: tierCfg{Params: map[string]int{"path_bytes": 7}}, Thorough: tierCfg{Params: map[string]int{"path_bytes": 10}}},
+			{Pkg: "dcs", Entry: "H_C15_retry", Witnesses: []string{"C15.retry.refused", "C15.retry.taken"},
+				Quick: tierCfg{Params: map[string]int{"zk_faults": 1}}, Thorough: tierCfg{Params: map[string]int{"zk_faults": 2}}},
+			{Pkg: "dcs", Entry: "H_C15_ephemeral_lifetime", Witnesses: []string{"C15.ephemeral"}},
+		},
+		Encoded: []string{"(*dcs.zkDCS).create", "(*dcs.zkDCS).set", "(*dcs.zkDCS).Get", "(*dcs.zkDCS).Delete", "(*dcs.zkDCS).GetChildren", "(*dcs.zkDCS).buildFullPath", "(*dcs.zkDCS).makePath",
+			"(*dcs.zkDCS).retryRequestInternal", "(*dcs.zkDCS).retryGet", "(*dcs.zkDCS).retryCreate", "(*dcs.zkDCS).retrySet", "(*dcs.zkDCS).retryDelete", "(*dcs.zkDCS).retryChildren"},
+		Assumptions: []string{
+			"fake ZooKeeper server (DESIGN §3.2b): znodes with data/version/ephemeral owner, rules for create/set(version)/delete(version)/get/children, ephemerals have no children and vanish with their session — this IS the reference tree (trusted)",
+			"one operation from an arbitrary tree over keys {a, a/b, a/b/c, d} (each absent/plain/ephemeral of this or another session, consistent with parents), 6 spellings with redundant slashes; sequences of operations and numbers of clients follow by induction on the tree",
+			"calls of zk.go on *zk.Conn are redirected to the fake (`z.conn.`→`verifConn(z).`); json.Marshal/Unmarshal replaced by a hand JSON codec for string/LockOwner/struct{} that is cross-checked against encoding/json in every native replay; dcs.retry replaced by a bounded loop honouring backoff.Permanent",
+			"buildFullPath: all byte strings over {'/','x','y'} up to the stated length, concretely enumerated by the engine (no solver needed: every value is a decision)",
+		},
+		Intercepted: []string{"*zk.Conn methods Get/Set/Create/Delete/Children (fake server)", "encoding/json.Marshal/Unmarshal in zk.go", "dcs.retry (backoff)", "zerolog"},
+		Outside:     []string{"concurrent modification between the sub-requests of one operation", "JSON fidelity for other types", "ACL/TLS/host provider", "GetTree", "session-timeout timing (the server ends sessions; when is outside)"},
+	})
 }
